@@ -50,6 +50,9 @@ func (s *SPDX23) Serialize(bom *sbom.Document, _ *native.SerializeOptions, _ int
 	if bom.Metadata == nil {
 		return nil, errors.New("document metadata is nil, unable to serialize to SPDX 2.3")
 	}
+	if err := CheckDocument(bom); err != nil {
+		return nil, fmt.Errorf("unable to serialize to SPDX 2.3: %w", err)
+	}
 	doc := &spdx.Document{
 		SPDXVersion:       spdx.Version,
 		DataLicense:       spdx.DataLicense,
